@@ -26,7 +26,7 @@ CONSTANTS Mailbox, Monitor, HistLen,
 
 VARIABLES boxes,      \* [Mailbox -> Seq([id, subj, seen])]
           stored,     \* Seq(<<mailbox, id>>): every message ever stored, in order (for the hub history)
-          mon,        \* [Monitor -> [joined : BOOLEAN, filter : Mailbox \cup {""}, due : Seq(event)]]
+          mon,        \* [Monitor -> [joined : BOOLEAN, ver : {"v1", "v2"}, filter : Mailbox \cup {""}, due : Seq(event)]]
           pop         \* POP3 session: [open : BOOLEAN, mb, snap : Seq(id), marked : SUBSET id]
 ivars == <<boxes, stored, mon, pop>>
 
@@ -34,14 +34,17 @@ MonEvent(variant, m, id) == [variant |-> variant, mb |-> m, id |-> id]
 Ids(m) == {boxes[m][i].id : i \in DOMAIN boxes[m]}
 Live(m, id) == id \in Ids(m)
 Watches(k, m) == mon[k].joined /\ (mon[k].filter = "" \/ mon[k].filter = m)
+(* a monitor speaking protocol v1 is told about stored messages only *)
+Wants(k, e) == /\ (mon[k].filter = "" \/ mon[k].filter = e.mb)
+               /\ (mon[k].ver = "v2" \/ e.variant = "message-stored")
 Announce(evs) == [k \in Monitor |-> IF mon[k].joined
-                                    THEN [mon[k] EXCEPT !.due = @ \o SelectSeq(evs, LAMBDA e : mon[k].filter = "" \/ mon[k].filter = e.mb)]
+                                    THEN [mon[k] EXCEPT !.due = @ \o SelectSeq(evs, LAMBDA e : Wants(k, e))]
                                     ELSE mon[k]]
 
 IInit ==
     /\ boxes = [m \in Mailbox |-> <<>>]
     /\ stored = <<>>
-    /\ mon = [k \in Monitor |-> [joined |-> FALSE, filter |-> "", due |-> <<>>]]
+    /\ mon = [k \in Monitor |-> [joined |-> FALSE, ver |-> "v2", filter |-> "", due |-> <<>>]]
     /\ pop = [open |-> FALSE, mb |-> "", snap |-> <<>>, marked |-> {}]
 
 (* SMTP: an acknowledged transaction stores one message in each target    *)
@@ -90,9 +93,9 @@ History(filter) ==
         recent == SubSeq(stored, IF n > HistLen THEN n - HistLen + 1 ELSE 1, n)
         still == SelectSeq(recent, LAMBDA r : Live(r[1], r[2]) /\ (filter = "" \/ filter = r[1]))
     IN  [i \in DOMAIN still |-> MonEvent("message-stored", still[i][1], still[i][2])]
-Join(k, filter) ==
+Join(k, filter, ver) ==
     /\ ~mon[k].joined
-    /\ mon' = [mon EXCEPT ![k] = [joined |-> TRUE, filter |-> filter, due |-> History(filter)]]
+    /\ mon' = [mon EXCEPT ![k] = [joined |-> TRUE, ver |-> ver, filter |-> filter, due |-> History(filter)]]
     /\ UNCHANGED <<boxes, stored, pop>>
 (* the monitor has received everything it was owed, exactly that, in that order *)
 Drained(k, received) ==
@@ -100,7 +103,7 @@ Drained(k, received) ==
     /\ mon' = [mon EXCEPT ![k].due = <<>>]
     /\ UNCHANGED <<boxes, stored, pop>>
 Leave(k) ==
-    /\ mon' = [mon EXCEPT ![k] = [joined |-> FALSE, filter |-> "", due |-> <<>>]]
+    /\ mon' = [mon EXCEPT ![k] = [joined |-> FALSE, ver |-> "v2", filter |-> "", due |-> <<>>]]
     /\ UNCHANGED <<boxes, stored, pop>>
 
 (* POP3: login fixes the snapshot; QUIT removes what is marked and still there *)
